@@ -52,13 +52,32 @@ def poly_eval(poly, xs):
     return s
 
 
-def run_interp(method, grids, table, extrap, pts):
+def run_interp(method, grids, table, extrap, pts, history=False):
     it = InterpND(method=method, points=tuple(grids), values=table, extrapolate=extrap)
+    if history:
+        # one interpolant object, one single-point call per query (the object keeps its bracket indices
+        # and coefficient caches from call to call)
+        return [float(np.ravel(it.interpolate(pts[j].reshape(1, -1).copy()))[0]) for j in range(len(pts))]
     return it.interpolate(pts)
 
 
-def run_comp(method, grids, table, extrap, pts):
+def run_comp(method, grids, table, extrap, pts, history=False):
     nd = len(grids)
+    if history:
+        comp = om.MetaModelStructuredComp(method=method, extrapolate=extrap, vec_size=1)
+        for i in range(nd):
+            comp.add_input('x%d' % i, 0.0, grids[i])
+        comp.add_output('f', 0.0, table)
+        prob = om.Problem()
+        prob.model.add_subsystem('comp', comp, promotes=['*'])
+        prob.setup()
+        out = []
+        for j in range(len(pts)):
+            for i in range(nd):
+                prob.set_val('x%d' % i, pts[j, i])
+            prob.run_model()
+            out.append(float(np.ravel(prob.get_val('f'))[0]))
+        return out
     comp = om.MetaModelStructuredComp(method=method, extrapolate=extrap, vec_size=len(pts))
     for i in range(nd):
         comp.add_input('x%d' % i, 0.0, grids[i])
@@ -110,7 +129,8 @@ def handle(c):
     extrap = bool(c['extrap'])
     exact = c['cmp'] == 'exact'
     name = method if c['variant'] == 'general' else '%dD-%s' % (nd, method)
-    kind = '%s/%s/%dD/%s/%s' % (name, c['via'], nd, 'extrap' if extrap else 'strict', c.get('pkind', ''))
+    kind = '%s/%s/%dD/%s/%s%s' % (name, c['via'], nd, 'extrap' if extrap else 'strict', c.get('pkind', ''),
+                               '/history' if c.get('history') else '')
 
     outside = [(j, i) for j, pt in enumerate(pfr) for i in range(nd)
                if pt[i] < gfr[i][0] or pt[i] > gfr[i][-1]]
@@ -120,7 +140,7 @@ def handle(c):
     runner = run_comp if c['via'] == 'comp' else run_interp
     vals, exc = None, None
     try:
-        vals = np.array(runner(name, grids, table, extrap, pts), dtype=float).ravel()
+        vals = np.array(runner(name, grids, table, extrap, pts, bool(c.get('history'))), dtype=float).ravel()
     except Exception as e:   # noqa
         exc = e
 
